@@ -247,22 +247,39 @@ pub fn examples(th: bool) -> Vec<Example> {
     }
     // ---------------------------------------------------------------- golomb
     {
-        let sizes: Vec<usize> = if th { vec![2, 3, 4, 5, 6, 7] } else { vec![2, 3, 4, 5, 6] };
+        // optimal ruler by depth first search with iterative deepening on the length (from the problem statement)
+        fn golomb_opt(n: usize) -> usize {
+            fn ok(marks: &[usize]) -> bool { let last = marks.len() - 1; let mut seen = [false; 128]; for i in 0..marks.len() { for j in i + 1..marks.len() { let d = marks[j] - marks[i]; if seen[d] { return false; } seen[d] = true; } } let _ = last; true }
+            fn extend(marks: &mut Vec<usize>, n: usize, len: usize) -> bool {
+                if marks.len() == n { return *marks.last().unwrap() == len; }
+                let from = marks.last().unwrap() + 1;
+                // the marks still to be placed need at least 1 + 2 + .. more room
+                let rem = n - marks.len();
+                if from + rem * (rem - 1) / 2 > len + 1 { return false; }
+                for x in from..=len { marks.push(x); if ok(marks) && extend(marks, n, len) { marks.pop(); return true; } marks.pop(); }
+                false
+            }
+            let mut len = n * (n - 1) / 2;
+            loop { if extend(&mut vec![0], n, len) { return len; } len += 1; }
+        }
+        let sizes: Vec<usize> = if th { vec![2, 3, 4, 5, 6, 7, 8, 9] } else { vec![2, 3, 4, 5, 6, 7, 8] };
         let sc = sizes.clone();
-        ex.push(Example { name: "golomb", scope: format!("number of marks in {:?} (oracle: brute force over mark sets)", sizes), count: sizes.len() as u64, file_flag: Some("GOLOMB"), tsptw_output: false, extra: vec![],
+        ex.push(Example { name: "golomb", scope: format!("number of marks in {:?} (oracle: exhaustive search over mark sets)", sizes), count: sizes.len() as u64, file_flag: Some("GOLOMB"), tsptw_output: false, extra: vec![],
             arg_sets: argsets(&[None, Some(1), Some(2), Some(3), Some(10)], &[None], "-w", "-t"),
             gen: Box::new(move |idx| {
                 let n = sc[idx as usize];
-                // brute force: smallest length L such that n marks in 0..=L with all differences distinct
-                fn ok(marks: &[usize]) -> bool { let mut seen = std::collections::BTreeSet::new(); for i in 0..marks.len() { for j in i + 1..marks.len() { if !seen.insert(marks[j] - marks[i]) { return false; } } } true }
-                fn extend(marks: &mut Vec<usize>, n: usize, len: usize) -> bool {
-                    if marks.len() == n { return *marks.last().unwrap() == len; }
-                    let from = marks.last().unwrap() + 1;
-                    for x in from..=len { marks.push(x); if ok(marks) && extend(marks, n, len) { marks.pop(); return true; } marks.pop(); }
-                    false
-                }
-                let mut len = n - 1;
-                loop { if extend(&mut vec![0], n, len) { break; } len += 1; }
+                let len = golomb_opt(n);
+                Case { text: format!("{}", n), expect: Expect::Value(-(len as f64)), descr: format!("{} marks (optimal ruler length {})", n, len) }
+            }) });
+        // larger rulers at width 1 only (a merge operator which is no relaxation only shows where the width-1 restricted diagram
+        // misses the optimum: 9 and 10 marks -- seeded change C16qr4)
+        let big: Vec<usize> = if th { vec![9, 10] } else { vec![9] };
+        let bg = big.clone();
+        ex.push(Example { name: "golomb@w1", scope: format!("number of marks in {:?}, width 1 only", big), count: big.len() as u64, file_flag: Some("GOLOMB"), tsptw_output: false, extra: vec![],
+            arg_sets: argsets(&[Some(1)], &[None], "-w", "-t"),
+            gen: Box::new(move |idx| {
+                let n = bg[idx as usize];
+                let len = golomb_opt(n);
                 Case { text: format!("{}", n), expect: Expect::Value(-(len as f64)), descr: format!("{} marks (optimal ruler length {})", n, len) }
             }) });
     }
@@ -708,7 +725,7 @@ pub fn check(tier: &str) -> i32 {
     // the cheapest examples first: what they leave of their share of the budget goes to the larger ones
     exs.sort_by_key(|e| (e.count + e.extra.len() as u64) * e.arg_sets.len() as u64);
     start_watchdog();
-    let total_budget = if th { 2400.0 } else { 50.0 };
+    let total_budget = if th { 2400.0 } else { 56.0 };
     let t0 = Instant::now();
     let mut per_example = vec![];
     let (mut runs, mut cases, mut complete) = (0u64, 0u64, true);
